@@ -342,6 +342,7 @@ fn check_steps(_seed: u64) -> i32 {
             for (name, got) in [("conv::Curve::from_arrival_bound", guarded(|| cu.number_arrivals(d(delta)))), ("conv::Curve::from_arrival_bound_until", guarded(|| cu2.number_arrivals(d(delta)))), ("conv::ArrivalCurvePrefix::from_arrival_bound_until", guarded(|| acp.number_arrivals(d(delta))))] {
                 match got { Ok(g) if g >= src => {}, other => return fail(name, format!("{{\"T\": {}, \"J\": {}, \"njobs\": {}, \"horizon\": {}, \"delta\": {}}}", t, j, n, hz, delta), format!("{:?}", other), format!(">= {} (the source)", src)) }
             }
+            if delta <= hz.max(1) { let g2 = guarded(|| Curve::from(&acp).number_arrivals(d(delta))); if g2 != Ok(src) { return fail("conv::Curve::from(&ArrivalCurvePrefix)", format!("{{\"T\": {}, \"J\": {}, \"horizon\": {}, \"delta\": {}}}", t, j, hz, delta), format!("{:?}", g2), format!("{} (exact up to the horizon)", src)); } }
             if delta <= hz.max(1) { let g = acp.number_arrivals(d(delta)); if g != src { return fail("conv::ArrivalCurvePrefix::from_arrival_bound_until", format!("{{\"T\": {}, \"J\": {}, \"horizon\": {}, \"delta\": {}}}", t, j, hz, delta), format!("{}", g), format!("{} (exact up to the horizon)", src)); } }
             if delta <= hz.max(1) && delta <= ud(cu2.min_distance(1000)) { let g = cu2.number_arrivals(d(delta)); if g != src { return fail("conv::Curve::from_arrival_bound_until", format!("{{\"T\": {}, \"J\": {}, \"horizon\": {}, \"delta\": {}}}", t, j, hz, delta), format!("{}", g), format!("{} (exact on the covered prefix)", src)); } }
         }
